@@ -358,6 +358,21 @@ func negationForms() []Form {
 		f("len_of_bytes_of_string", "r = uint64(len([]byte(s)))"),
 		f("string_len_after_concat", "r = uint64(len(s + \"é\"))"),
 	)
+	out = append(out,
+		// integer literals in every spelling, up to the largest values
+		f("lit_max_u64", "r = x ^ 18446744073709551615"), f("lit_hex_max", "r = x ^ 0xFFFFFFFFFFFFFFFF"), f("lit_2_63", "r = x + 9223372036854775808"),
+		f("lit_2_63_minus_1", "r = x + 9223372036854775807"), f("lit_hex", "r = x + 0xff"), f("lit_octal", "r = x + 0o17"), f("lit_old_octal", "r = x + 017"),
+		f("lit_binary", "r = x + 0b101"), f("lit_underscore", "r = x + 1_000_000"), f("lit_u32_max", "r32 = w ^ 4294967295"), f("lit_u8_max", "r8 = c ^ 255"),
+		f("lit_u32_hex", "r32 = w + 0xFFFF0000"), f("lit_const_shift", "r = x + (1 << 63)"),
+		// maps whose value type differs from the key type: what a missing key reads as
+		f("map_bool_missing", "mb := make(map[uint64]bool)\nmb[1] = true\nrb = mb[7]\nr = b2u(mb[1])"),
+		f("map_struct_missing", "ms := make(map[uint64]S2)\nms[1] = S2{a: x, b: 2}\nq := ms[7]\nq1 := ms[1]\nr = q.a + q.b + q1.b"),
+		f("map_slice_missing", "ml := make(map[uint64][]uint64)\nml[1] = xs\nr = uint64(len(ml[7])) + uint64(len(ml[1]))"),
+		f("map_string_key", "mk := make(map[string]uint64)\nmk[s] = x + 1\nr = mk[s] + mk[\"zz\"]"),
+		f("map_u32_value", "m3 := make(map[uint64]uint32)\nm3[1] = w\nr32 = m3[1] + m3[2]"),
+		f("map_update_through_copy", "ms := make(map[uint64]S2)\nms[1] = S2{a: x, b: 2}\nq := ms[1]\nms[1] = S2{a: 9, b: 9}\nr = q.a + q.b"),
+		f("map_lookup_ok_struct", "ms := make(map[uint64]S2)\nq, ok := ms[3]\nr = q.a\nrb = ok"),
+	)
 	return out
 }
 
